@@ -7,6 +7,7 @@ package harness
 
 import (
 	"fmt"
+	"os"
 	"sort"
 	"strings"
 	"testing"
@@ -424,6 +425,7 @@ type operandNode struct {
 	node *onnx.NodeProto
 	ins  []tensor.Tensor
 	nOut int
+	tags []string // classes for the evidence
 }
 
 func genBigDot(rt *rapid.T) operandNode {
@@ -436,7 +438,7 @@ func genBigDot(rt *rapid.T) operandNode {
 		if batch > 0 {
 			sa = []int{batch, m, k}
 		}
-		return operandNode{mkNode("MatMul", nil, nil), []tensor.Tensor{mkT(sa, smallF32s(rt, prod(sa), 2, "a")), mkT(sb, smallF32s(rt, prod(sb), 2, "b"))}, 1}
+		return operandNode{mkNode("MatMul", nil, nil), []tensor.Tensor{mkT(sa, smallF32s(rt, prod(sa), 2, "a")), mkT(sb, smallF32s(rt, prod(sb), 2, "b"))}, 1, []string{"big-dot"}}
 	}
 	transA, transB := rapid.IntRange(0, 1).Draw(rt, "transA"), rapid.IntRange(0, 1).Draw(rt, "transB")
 	var attrs []*onnx.AttributeProto
@@ -463,30 +465,31 @@ func genBigDot(rt *rapid.T) operandNode {
 	if sc := rapid.SampledFrom([][]int{nil, {n}, {m, n}, {1, n}, {m, 1}, {}}).Draw(rt, "cShape"); sc != nil {
 		ins = append(ins, mkT(sc, smallF32s(rt, prod(sc), 2, "c")))
 	}
-	return operandNode{mkNode("Gemm", nil, nil, attrs...), ins, 1}
+	return operandNode{mkNode("Gemm", nil, nil, attrs...), ins, 1, []string{"big-dot"}}
 }
 
 func genOperandNode(rt *rapid.T) operandNode {
-	switch rapid.SampledFrom([]string{"conv", "conv", "conv", "bigdot", "bigdot", "dot", "rnn", "binary", "shape", "move", "reduce", "unary", "unary", "constcast"}).Draw(rt, "family") {
+	fam := os.Getenv("VERIF_OPERAND_FAMILY") // development aid: restrict the sub-check to one family
+	switch rapid.SampledFrom([]string{"conv", "conv", "conv", "bigdot", "bigdot", "dot", "rnn", "binary", "shape", "move", "reduce", "unary", "unary", "constcast"}).Filter(func(f string) bool { return fam == "" || f == fam }).Draw(rt, "family") {
 	case "shape":
 		c := c07Gen(rt)
-		return operandNode{c.node, c.inputs(), 1}
+		return operandNode{c.node, c.inputs(), 1, nil}
 	case "move":
 		c := c08Gen(rt)
-		return operandNode{c.node, c.inputs(), 1}
+		return operandNode{c.node, c.inputs(), 1, nil}
 	case "reduce":
 		c := c09Gen(rt)
-		return operandNode{c.node, []tensor.Tensor{cloneT(c.x)}, 1}
+		return operandNode{c.node, []tensor.Tensor{cloneT(c.x)}, 1, nil}
 	case "unary":
 		c := c10Gen(rt)
 		ins := []tensor.Tensor{cloneT(c.x)}
 		if c.op == "PRelu" {
 			ins = append(ins, cloneT(c.slope))
 		}
-		return operandNode{mkNode(c.op, nil, nil), ins, 1}
+		return operandNode{mkNode(c.op, nil, nil), ins, 1, nil}
 	case "constcast":
 		c := c11Gen(rt)
-		return operandNode{c.node, cloneTs(c.ins), 1}
+		return operandNode{c.node, cloneTs(c.ins), 1, nil}
 	case "conv":
 		g := genConvGeom(rt)
 		if g.group == 2 {
@@ -507,22 +510,33 @@ func genOperandNode(rt *rapid.T) operandNode {
 		if g.hasBias {
 			ins = append(ins, mkT([]int{g.m}, smallF32s(rt, g.m, 2, "b")))
 		}
-		return operandNode{g.node(), ins, 1}
+		tag := "conv-small"
+		if prod(x.Shape()) >= 4096 {
+			tag = "conv-big-padded"
+			padded := g.autoPad == "SAME_UPPER" || g.autoPad == "SAME_LOWER" || g.autoPad == "VALID"
+			for a := range g.in {
+				padded = padded || g.padLo[a] != 0 || g.padHi[a] != 0
+			}
+			if !padded {
+				tag = "conv-big-unpadded"
+			}
+		}
+		return operandNode{g.node(), ins, 1, []string{tag}}
 	case "bigdot":
 		return genBigDot(rt)
 	case "dot":
 		c := c04Gen(rt)
-		return operandNode{c.node, c.ins, 1}
+		return operandNode{c.node, c.ins, 1, nil}
 	case "rnn":
 		c := genRnnCase(rt)
-		return operandNode{c.node(), c.inputs(), len(c.node().Output)}
+		return operandNode{c.node(), c.inputs(), len(c.node().Output), nil}
 	default:
 		c := c03Gen(rt)
 		b := c.b
 		if c.same {
 			b = cloneT(c.a)
 		}
-		return operandNode{mkNode(c.op, nil, nil), []tensor.Tensor{c.a, b}, 1}
+		return operandNode{mkNode(c.op, nil, nil), []tensor.Tensor{c.a, b}, 1, nil}
 	}
 }
 
@@ -595,6 +609,15 @@ func c02OperandsAsInputs(rt *rapid.T) {
 		return feed
 	}, false, 1, true)
 	mc.depth = 3
+	seen := map[string]bool{}
+	for _, on := range nodes {
+		for _, tg := range on.tags {
+			mc.flags[tg], seen[tg] = true, true
+		}
+	}
+	if seen["conv-big-unpadded"] && seen["conv-big-padded"] {
+		mc.flags["conv-big-unpadded-and-padded"] = true
+	}
 	mc.step(rt, "first", mc.mkFeed(rt, 1))
 	rt.Repeat(mc.actions(rt))
 	mc.record("operands-as-inputs")
